@@ -5,8 +5,8 @@ package main
 // adversarial characters; which pool a case used is reported in the evidence.
 
 import (
-	"strconv"
 	"fmt"
+	"strconv"
 	"strings"
 
 	"ariga.io/atlas/sql/schema"
